@@ -18,7 +18,7 @@ P = ("C16", "C06")
 PRELUDE = r"""
 // ---- shims (assumptions)
 #[verifier::external_body] struct Opaque { _p: u8 }
-#[verifier::external_body] struct ConstantIndex { _p: u8 }
+#[verifier::external_body] #[derive(Clone, Copy)] struct ConstantIndex { _p: u8 }
 #[verifier::external_body] struct MetaKey { _p: u8 }
 uninterp spec fn base_key() -> MetaKey;
 // `&MetaKey::Base` (rule R5)
@@ -61,7 +61,15 @@ impl KValue {
     #[verifier::external_body]
     fn type_name_is(&self, name: &str) -> (r: bool) ensures r == named(*self, name@) { unimplemented!() }
 }
-struct KotoVm { _p: u8 }
+struct Reader { ip: usize }
+struct KotoVm { reader: Reader }
+#[verifier::external_body] struct Error { _p: u8 }
+type Result<T> = core::result::Result<T, Error>;
+// unexpected_type(..) (error.rs): always an error; `&format!("{expected_type}?")` (rule R5)
+#[verifier::external_body]
+fn unexpected_type<T>(expected: &str, unexpected: &KValue) -> (r: Result<T>) ensures r is Err { unimplemented!() }
+#[verifier::external_body]
+fn optional_type_name(expected_type: &str) -> String { unimplemented!() }
 """
 
 UNIT = Unit(
@@ -115,6 +123,34 @@ let ghost v0 = self.reg(value_register);""",
           && self.constant(type_index)@ != "Any"@ && self.constant(type_index)@ != "Callable"@
           && self.constant(type_index)@ != "Indexable"@ && self.constant(type_index)@ != "Iterable"@
           ==> exists|k: nat| (#[trigger] ancestor(self.reg(value_register), k)) matches Some(a) && named(a, self.constant(type_index)@),   // @passes_only_with_a_matching_ancestor
+"""),
+        Raw(r"""
+    // vm.rs jump_ip: PROVED in V-truthy
+    #[verifier::external_body]
+    fn jump_ip(&mut self, offset: u32) ensures final(self).reader.ip == old(self).reader.ip + offset { unimplemented!() }
+    // what the check decides: the function above, as a spec (its result is a function of the registers
+    // and constants, which neither instruction changes)
+    uninterp spec fn admits(&self, value_register: u8, type_index: ConstantIndex, allow_null: bool) -> bool;
+    #[verifier::external_body]
+    fn compare_value_type_(&self, value_register: u8, type_index: ConstantIndex, allow_null: bool) -> (r: bool)
+        ensures r == self.admits(value_register, type_index, allow_null) { unimplemented!() }
+""", impl_of="impl KotoVm"),
+        Fn(VM, "impl KotoVm :: fn run_assert_type", props=P,
+           subst=[("self.compare_value_type(", "self.compare_value_type_(", None),
+                  (r'unexpected_type\(&format!\("\{expected_type\}\?"\), value\)', "unexpected_type(optional_type_name(expected_type).as_str(), value)", None, "re")],
+           spec=r"""
+    ensures
+        // C16: a hint on `let` / an argument / a return value: an error exactly when the check fails
+        (r is Ok) == self.admits(value_register, type_index, allow_null),                               // @error_exactly_when_the_check_fails
+"""),
+        Fn(VM, "impl KotoVm :: fn run_check_type", props=P,
+           subst=[("self.compare_value_type(", "self.compare_value_type_(", None)],
+           spec=r"""
+    requires old(self).reader.ip + jump_offset <= usize::MAX,
+    ensures
+        // C16: a hint in a `match` pattern SELECTS: no error, the arm is skipped exactly when the check fails
+        r is Ok,                                                                                         // @never_an_error
+        final(self).reader.ip == (if old(self).admits(value_register, type_index, allow_null) { old(self).reader.ip as int } else { old(self).reader.ip + jump_offset }),   // @skips_the_arm_exactly_when_the_check_fails
 """),
     ],
     epilogue=r"""
